@@ -3,7 +3,34 @@
 use serde_json::{json, Value};
 use tensor_store::{EntityId, TensorStore};
 
+/// C2: a small-segment blob log with sealed segments is snapshotted and restored; more blobs are appended until the restored active
+/// segment seals; every blob of the snapshot must still read back.
+fn blob_log_restore(req: &Value) -> Value {
+    use tensor_store::blob_log::BlobLog;
+    let log = BlobLog::new(64);
+    let blob = |i: u8| vec![i; 40];
+    let hashes: Vec<_> = (1u8..=3).map(|i| (i, log.append(&blob(i)))).collect();
+    let segments_before = log.segment_count();
+    let snap = log.snapshot();
+    let restored = if req["fn"].as_str() == Some("restore") { BlobLog::restore(snap) } else { let l = BlobLog::new(64); l.restore_from(snap); l };
+    // after every further append, every blob written so far must read back as itself (a reused segment id shadows one of them)
+    let mut all = hashes.clone();
+    let mut bad: Vec<String> = vec![];
+    for i in 10u8..14 {
+        all.push((i, restored.append(&blob(i))));
+        for (j, h) in &all {
+            if restored.get(h) != Some(blob(*j)) {
+                bad.push(format!("after appending blob {i}: blob {j} reads back as {:?}", restored.get(h).map(|b| b.first().copied())));
+            }
+        }
+    }
+    json!({"segments_in_snapshot": segments_before, "segments_now": restored.segment_count(), "problems": bad, "violates": !bad.is_empty()})
+}
+
 pub fn handle(op: &str, _req: &Value) -> Option<Value> {
+    if op == "blob_log_restore" {
+        return Some(blob_log_restore(_req));
+    }
     if op != "store_rollback" {
         return None;
     }
